@@ -10,7 +10,7 @@ LEAN_MODULES = ["Ecal.Props.C09"]
 RULE = ("one case = one schedule of the real pool under the hook scheduler (go/cmd/harness/c09sched.go): "
         "directed schedules (lost-wake-up windows after the empty Pop / after L.Lock / after the predicate check, "
         "kill vs. wait, resize up/down during bursts, resize while an earlier shrink is still carried out (over-kill / under-shoot / waiting shrink), "
-        "resize / AddTask while a JoinAll is carried out, SetWorkerCount(0) with a backlog and back, a running task waiting for the start of a queued one, "
+        "resize / AddTask while a JoinAll is carried out, a SetWorkerCount that overwrites a JoinAll's request (JoinAll must still return), SetWorkerCount(0) with a backlog and back, a running task waiting for the start of a queued one, "
         "a task adding tasks from Run, JoinAll after a burst, WaitAll while a task runs) x workers {1,2,4}; a family on a real engine.Processor "
         "(engine.TaskQueue, rule actions injecting child events from inside Run, AddEventAndWait); "
         "randomised schedules (seeded yield/sleep/park decisions at every park point, per-thread priorities), workers 1..16, "
@@ -42,9 +42,9 @@ ASSUMPTIONS = [
     "fairness (F1): a goroutine whose next step stays enabled is eventually scheduled; a goroutine blocked on a mutex released infinitely often eventually gets it",
     "termination (F2): every task's Run returns",
     "'eventually started' = safety (task_multiset) + no stuck state (no_stuck_task / resize_converges) + F1 + F2; the step from no-stuck-state to real time is not proved",
-    "resize_target holds until the next resize / JoinAll starts; a SetWorkerCount(n>0) that overlaps a JoinAll overrides it (workerKill leaves -1): that JoinAll then only returns after a later SetWorkerCount(0) — contradictory concurrent commands, not judged",
+    "resize_target holds until the next resize / JoinAll (re-)asserts its request; when a JoinAll and a SetWorkerCount(n>0) overlap the one deciding last wins: JoinAll keeps its request up in its loop (fix C09-joinall-vs-setworkercount), both calls return",
     "OUTSIDE THE QUANTIFIER ('while the pool has at least one worker'): WaitAll on a pool without workers returns at once with tasks queued (hypothesis 0 < workerCount of waitall_sound); "
-    "JoinAll on a pool without workers but with queued tasks never returns (ran: SetWorkerCount(0,true) with a backlog, then JoinAll: spins) — termination of JoinAll / WaitAll is not claimed, only that their exit guards are sound",
+    "JoinAll on a pool without workers but with queued tasks never returns (ran: SetWorkerCount(0,true) with a backlog, then JoinAll: spins) — JoinAll's termination is proved as bounded work + no stuck state (joinall_bound, joinall_not_stuck) under fairness; WaitAll's termination is not claimed, only that its exit guard is sound",
     "the RETURN of SetWorkerCount(n>0, …) is not modelled: its trailing loop waits until some worker is idle, i.e. on a saturated pool until the backlog is drained (ran: 1 busy worker, SetWorkerCount(1,false) returned after the backlog); the property constrains the worker COUNT (resize_target, resize_converges), not the call's return",
 ]
 
@@ -181,6 +181,10 @@ def run(ctx):
                                                     budget_s=3000 if thorough else 600)
     crashes = sum(len(i["crashes"]) for i in infos.values())
     ctx.log(f"harness: {len(cases)} schedules, {crashes} crashes")
+    cov["crash_details"] = [{"idx": c["idx"], "rc": c["rc"], "case": cases.get(c["idx"]), "result": gores.get(c["idx"], "")[:200],
+                             "output": c["output"][-400:]} for i in infos.values() for c in i["crashes"]][:10]
+    for d in cov["crash_details"]:
+        ctx.log("crash:", d["idx"], d["rc"], d["case"], "|", d["result"][:80], "|", " ".join(d["output"].split())[-200:])
     # the model replays the recorded trace: hand it payload + trace
     lines = {}
     for i, p in cases.items():
@@ -246,6 +250,14 @@ def run(ctx):
         reported += 1
         if reported == 3:
             break
+    # a harness process that died (panic in a worker goroutine, race report) is a violation even when the
+    # case it died in had already written its result
+    for d in cov["crash_details"]:
+        if not any(i == d["idx"] for i, _ in bad):
+            rp = checklib.write_replay(ctx, "schedule", {"payload": d["case"], "readable": decode(d["case"] or "")},
+                                       "the harness process survives the case", f"process died with status {d['rc']}: " + d["output"][-300:],
+                                       "./check C09 --replay <this file>", tag="crash")
+            checklib.violation(ctx, rp, f"harness process died (status {d['rc']}) at case {d['idx']}")
     if proof_broken and not bad:
         rp = checklib.write_replay(ctx, "obligation", {"failures": lres["failures"], "theorems": lres["theorems"],
                                                         "skeleton_facts_refuted": refuted},
